@@ -104,6 +104,8 @@ def _case(draw):
     d = draw(G.directory(n_pages=(2, 3), notes_per_page=(2, 4), dup_ids=draw(st.integers(0, 3)) == 0))
     zids = [it["zid"] for pg in d.values() for it in P.iter_items(pg)]
     return {"dir": d, "today": "2024-01-05", "ext": draw(st.sampled_from(["zo", "zo", "zoq"])),
+            # the page that holds the line lives at the top of the notes directory or below it
+            "where": draw(st.sampled_from(["", "", "sub/", "prj/deep/"])),
             "lines": [draw(_line(zids)) for _ in range(6)]}
 
 
@@ -168,10 +170,14 @@ def check(case, rec: Rec) -> None:
                 by_id.setdefault(r["props"]["ID"], []).append(r)
             if "RID" in r["props"]:
                 by_rid.setdefault(r["props"]["RID"], []).append(r)
-        rel = "lines." + case["ext"]
+        rel = case.get("where", "") + "lines." + case["ext"]
+        (zdir / rel).parent.mkdir(parents=True, exist_ok=True)
+        if case.get("where"):
+            rec.label("line-on-page-in-subdirectory")
         single = "single." + case["ext"]
         for li, ln in enumerate(case["lines"]):
-            one = {"dir": case["dir"], "today": case["today"], "ext": case["ext"], "lines": [ln]}
+            one = {"dir": case["dir"], "today": case["today"], "ext": case["ext"], "where": case.get("where", ""),
+                   "lines": [ln]}
             (zdir / rel).write_text("# lines\n\n" + ln["text"] + "\n")
             before = env.read_tree(zdir)
             code, out, calls = _run(zdir, rel, 3, ln["idx"], rec)
